@@ -17,6 +17,7 @@ package main
 
 import (
 	"bytes"
+	"crypto/md5"
 	"encoding/hex"
 	"encoding/json"
 	"flag"
@@ -266,6 +267,36 @@ func showBytes(b []byte) map[string]interface{} {
 	return map[string]interface{}{"len": len(b), "quoted": fmt.Sprintf("%q", t), "hex": hex.EncodeToString(t)}
 }
 
+// held encodings: per codec the slices returned by the last Marshal calls (not copies) with a digest of their
+// content at the time they were returned.
+type heldEnc struct {
+	b   []byte
+	sum [16]byte
+	n   int
+}
+
+var held = map[string][]heldEnc{}
+
+func heldCheck(codecName string, enc []byte) *failure {
+	hs := held[codecName]
+	for i, h := range hs {
+		if len(h.b) != h.n || md5.Sum(h.b) != h.sum {
+			held[codecName] = nil
+			return &failure{"encoding-changed-by-later-marshal", fmt.Sprintf("the bytes returned by an earlier Marshal call (%d bytes, %d calls ago) changed after later Marshal calls of the same codec", h.n, len(hs)-i),
+				map[string]interface{}{"earlier_len": h.n}, ""}
+		}
+	}
+	core.Add("earlier_encodings_rechecked", int64(len(hs)))
+	if len(enc) > 0 {
+		hs = append(hs, heldEnc{enc, md5.Sum(enc), len(enc)})
+		if len(hs) > 6 {
+			hs = hs[1:]
+		}
+		held[codecName] = hs
+	}
+	return nil
+}
+
 // roundtrip encodes *p and decodes into a fresh destination. byValue: Marshal gets T instead of *T.
 func roundtrip(s *spec, p reflect.Value, byValue bool, r *core.Rand) *failure {
 	var in interface{} = p.Interface()
@@ -286,6 +317,11 @@ func roundtrip(s *spec, p reflect.Value, byValue bool, r *core.Rand) *failure {
 	if err != nil {
 		w["error"] = err.Error()
 		return &failure{"marshal-error", "Marshal refused a value of the supported domain: " + err.Error(), w, ""}
+	}
+	// the encodings handed out by earlier Marshal calls of this codec are still what they were: an encoding belongs to
+	// its caller (it is decoded, or written to a connection, after other messages have been encoded)
+	if f := heldCheck(s.codec, enc); f != nil {
+		return f
 	}
 	data := append([]byte(nil), enc...) // Marshal may alias the value (plain codec, []byte)
 	keep := append([]byte(nil), data...)
